@@ -68,6 +68,238 @@ for _p in API_INVS:
     EXTRA.setdefault(_p, []).append(api_part)
 
 
+ASSUME_PAIR = [
+    "TLC 1.8 and the CommunityModules are trusted",
+    "the harness' projection (harness/tracer.py) is faithful; wall-clock algorithm-timing columns are not part of the comparison",
+]
+
+
+def _mc_simple(pid, fams, invs, props, out):
+    from . import main as M
+    for fam in fams:
+        r = core.run_tlc("MC_Sim", M.mc_cfg(fam, invs, props), heap="12g")
+        if core.tlc_failed(r["out"]):
+            raise MachineryError("TLC failed on MC_Sim family %s:\n%s" % (fam, r["out"][-3000:]))
+        v = core.tlc_violation(r["out"])
+        out["states"] += r.get("states", 0)
+        out["transitions"] += r.get("transitions", 0)
+        out["samples"].append({"mc_family": fam, "invariants": invs, "properties": props,
+                               "states": r.get("states", 0), "violated": v, "wall_s": round(r["wall"], 1)})
+        if v:
+            i = r["out"].find("Error:")
+            path = core.write_replay(pid, "mc_" + fam, {"kind": "mc", "family": fam, "violated": v,
+                                                         "tlc": r["out"][i:i + 20000]})
+            out["violations"].append(("design-level: %s violated in family %s" % (v, fam), path))
+
+
+def check_pairs(pid, tier, name, builder, label, mc):
+    from . import main as M
+    t0 = time.time()
+    out = {"violations": [], "known": [], "states": 0, "transitions": 0, "samples": []}
+    if core.VERIF not in sys.path:
+        sys.path.insert(0, core.VERIF)
+    res, d = core.pair_batch(name, tier, builder)
+    by = {}
+    for v in res["verdicts"]:
+        by.setdefault(v["gid"], []).append(v)
+    for gid, vs in sorted(by.items())[:20]:
+        pr = core.load_pair(d, vs[0])
+        what = sorted({v["what"] for v in vs})
+        path = core.write_replay(pid, name, {"kind": name, "property": pid, "what": pr["what"], "differs": what})
+        info = {k: v for k, v in pr["what"].items() if k != "cfg"}
+        out["violations"].append(("%s %s: %s differ (first difference at event %d)" % (
+            label, json.dumps(info), ",".join(what), min(v["at"] for v in vs)), path))
+    tv = res.get("trace_verdicts") or []
+    mine = [v for v in tv if v["kind"] == "L1" and (v["what"].startswith(pid + ".") or v["what"].startswith("C13."))]
+    for v in mine[:10]:
+        path = core.write_replay(pid, name + "_l1", {"kind": "note", "property": pid, "verdict": v})
+        out["violations"].append(("clause %s fails in an interrupted execution at event %d" % (v["what"], v["l"]), path))
+    fams, invs, props = mc
+    _mc_simple(pid, fams if tier == "quick" else fams, invs, props, out)
+    out["samples"] += res["what"][:3]
+    cov = {"states": max(out["states"], 1), "transitions": max(out["transitions"], 1),
+           "traces_validated_against_impl": res["npairs"] + res.get("ntraces", 0),
+           "samples": out["samples"], "pairs_compared": res["npairs"],
+           "events_compared": res["events"],
+           "interrupted_trace_events_validated": res.get("trace_steps", 0),
+           "exhaustive": False,
+           "checker_cmd": "tlc TraceEq on pair files; tlc TraceSim on interrupted traces; tlc MC_Sim families %s" % ",".join(fams)}
+    M.finish(pid, tier, out, cov, time.time() - t0, ASSUME_PAIR)
+
+
+def check_c11(pid, tier):
+    from harness import pairs
+    check_pairs(pid, tier, "segpairs", lambda t, s: pairs.seg_pairs(t, s, core.NCPU), "pause/resume",
+                (["S"], ["I_C13_end", "I_C13_nodup", "I_End"], ["A_C11"]))
+
+
+def check_c10(pid, tier):
+    from harness import pairs
+    check_pairs(pid, tier, "hashpairs", lambda t, s: (pairs.hash_pairs(t, s, core.NCPU), []), "hash seeds",
+                (["A", "W"], ["I_C10_det"], []))
+
+
+PURE_RE = __import__("re").compile(r'^<<"(PURE|PUREDONE)", (.*)>>$')
+
+
+def pure_batch(tier):
+    """records of the real pure functions judged by TLC (spec/Pure.tla)"""
+    import fcntl
+    import shutil
+    key = core.tree_key("pure", tier, core.seed())
+    d = os.path.join(core.CACHE, key)
+    os.makedirs(core.CACHE, exist_ok=True)
+    lock = open(os.path.join(core.CACHE, key + ".lock"), "w")
+    fcntl.flock(lock, fcntl.LOCK_EX)
+    try:
+        done = os.path.join(d, "verdicts.json")
+        if os.path.exists(done):
+            return json.load(open(done)), d
+        shutil.rmtree(d, ignore_errors=True)
+        os.makedirs(d)
+        if core.VERIF not in sys.path:
+            sys.path.insert(0, core.VERIF)
+        from harness import pure
+        data = pure.build(tier, core.seed())
+        pth = os.path.join(d, "pure.json")
+        json.dump(data, open(pth, "w"))
+        r = core.run_tlc("Pure", "SPECIFICATION PSpec\nCHECK_DEADLOCK FALSE\n", workers=1,
+                         env={"TRACE_FILE": pth}, heap="6g", serial_gc=True)
+        if core.tlc_failed(r["out"]) or "PUREDONE" not in r["out"]:
+            raise MachineryError("TLC failed on Pure:\n" + r["out"][-3000:])
+        verdicts = []
+        for line in r["out"].splitlines():
+            m = PURE_RE.match(line.strip())
+            if m and m.group(1) == "PURE":
+                what, k = m.group(2).split(", ")
+                verdicts.append({"what": what.strip('"'), "i": int(k)})
+        res = {"verdicts": verdicts, "counts": {k: len(v) for k, v in data.items() if isinstance(v, list)}}
+        json.dump(res, open(done, "w"))
+        return res, d
+    finally:
+        fcntl.flock(lock, fcntl.LOCK_UN)
+        lock.close()
+
+
+PURE_KEY = {"C14": "plan", "C16": "config", "C15": "delay", "C06": "runtime"}
+
+
+def pure_part(pid, tier, out):
+    res, d = pure_batch(tier)
+    key = PURE_KEY[pid]
+    data = None
+    mine = [v for v in res["verdicts"] if v["what"].startswith(pid)]
+    for v in mine[:15]:
+        if data is None:
+            data = json.load(open(os.path.join(d, "pure.json")))
+        rec = data[key][v["i"] - 1] if v["i"] > 0 else {"coverage": "the records do not cover the enumerated input space"}
+        path = core.write_replay(pid, "pure", {"kind": "pure", "property": pid, "which": key, "record": rec})
+        out["violations"].append(("%s record %d violates the contract of spec/Pure.tla: %s" % (
+            key, v["i"], json.dumps(rec.get("x", rec))[:300]), path))
+    n = res["counts"][key]
+    out["extra_traces"] = out.get("extra_traces", 0) + n
+    ec = out.setdefault("extra_cov", {})
+    ec["pure_function_records_judged"] = n
+    if data is None:
+        data = json.load(open(os.path.join(d, "pure.json")))
+    out["samples"].append({"pure_record": data[key][min(5, n - 1)]})
+
+
+def check_pure(pid, tier):
+    from . import main as M
+    t0 = time.time()
+    out = {"violations": [], "known": [], "states": 0, "transitions": 0, "samples": []}
+    pure_part(pid, tier, out)
+    n = out["extra_cov"]["pure_function_records_judged"]
+    cov = {"states": n, "transitions": n, "traces_validated_against_impl": n, "samples": out["samples"],
+           "exhaustive": True,
+           "rule": "every input of the enumerated input space of spec/Pure.tla is executed through the real function and the (input, output) record judged by TLC; TLC also checks that the records cover the enumerated space",
+           "checker_cmd": "tlc Pure (TRACE_FILE = records of the real functions)"}
+    cov.update(out["extra_cov"])
+    M.finish(pid, tier, out, cov, time.time() - t0,
+             ["TLC is the oracle for the input/output contract; the harness only transports values (integrality is verified, not rounded)",
+              "states/transitions count judged records (one TLC evaluation each), not a state graph"])
+
+
+BUF_INVS = {
+    "C18": (["I_bounds", "I_conserved", "I_noraise", "I_progress"], ["A_step", "A_done", "A_refused", "A_tick"]),
+    "C07": (["I_bounds", "I_conserved"], []),
+}
+
+
+def buf_part(pid, tier, out):
+    """buffer tier moves as a component: TLC explores spec/MC_Buffer.tla; real
+    move histories on a real Buffer are validated event by event"""
+    invs, props = BUF_INVS[pid]
+    depth = 10 if tier == "quick" else 14
+    cfg = "SPECIFICATION BSpec\nCONSTANT MaxDepth = %d\n" % depth
+    cfg += "".join("INVARIANT %s\n" % i for i in invs) + "".join("PROPERTY %s\n" % p for p in props)
+    cfg += "CHECK_DEADLOCK FALSE\n"
+    r = core.run_tlc("MC_Buffer", cfg, heap="12g")
+    if core.tlc_failed(r["out"]):
+        raise MachineryError("TLC failed on MC_Buffer:\n" + r["out"][-3000:])
+    v = core.tlc_violation(r["out"])
+    out["states"] += r.get("states", 0)
+    out["transitions"] += r.get("transitions", 0)
+    out["samples"].append({"mc": "MC_Buffer", "max_depth": depth, "invariants": invs, "properties": props,
+                           "states": r.get("states", 0), "violated": v, "wall_s": round(r["wall"], 1)})
+    if v:
+        i = r["out"].find("Error:")
+        path = core.write_replay(pid, "mc_buf", {"kind": "mc", "family": "Buffer", "violated": v,
+                                                  "tlc": r["out"][i:i + 20000]})
+        out["violations"].append(("design-level: %s violated for buffer tier moves" % v, path))
+    batch, bdir = core.trace_batch("bufapibatch", tier)
+    prefixes = (pid + ".",) if pid != "C18" else ("C18.", "C07.")
+    mine = [x for x in batch["verdicts"] if x["kind"] == "L1" and x["what"].startswith(prefixes)]
+    by_gid = {}
+    for x in mine:
+        by_gid.setdefault(x["gid"], []).append(x)
+    for gid, vs in sorted(by_gid.items())[:20]:
+        tr = core.load_trace(bdir, batch["meta"][gid])
+        clauses = sorted({x["what"] for x in vs})
+        c = tr["cfg"]
+        path = core.write_replay(pid, "bufapi", {"kind": "bufapi", "property": pid, "clauses": clauses,
+                                                 "cfg": c, "ops": tr["ops"]})
+        out["violations"].append(("buffer history hot=%s/%s cold=%s/%s sizes=%s ops=%s: clauses %s" % (
+            c["hotCap"], c["hotRate"], c["coldCap"], c["coldRate"], [o["dur"] for o in c["obs"]],
+            [o["op"] for o in tr["ops"]][:8], ",".join(clauses)), path))
+    drift = [x for x in batch["verdicts"] if x["kind"] == "DRIFT"]
+    out["extra_traces"] = out.get("extra_traces", 0) + batch["ntraces"]
+    ec = out.setdefault("extra_cov", {})
+    ec["buffer_histories_executed"] = batch["ntraces"]
+    ec["buffer_history_events_validated"] = batch["steps"]
+    ec["buffer_history_l2_drift"] = len(drift)
+    if drift:
+        print("DRIFT(buffer): %d events of buffer histories are not steps of the specification; first %s"
+              % (len(drift), json.dumps(drift[0])))
+    return batch
+
+
+def check_c18(pid, tier):
+    from . import main as M
+    t0 = time.time()
+    out = {"violations": [], "known": [], "states": 0, "transitions": 0, "samples": []}
+    batch = buf_part(pid, tier, out)
+    out["samples"] += [{"trace": m} for m in batch["meta"][:2]]
+    cov = {"states": max(out["states"], 1), "transitions": max(out["transitions"], 1),
+           "traces_validated_against_impl": batch["ntraces"], "samples": out["samples"], "exhaustive": False,
+           "checker_cmd": "tlc MC_Buffer ; tlc TraceSim on buffer-move histories of a real Buffer"}
+    cov.update(out["extra_cov"])
+    M.finish(pid, tier, out, cov, time.time() - t0,
+             ["one move at a time (the buffer has one transfer slot per tier); concurrent moves only occur in the tiering regime recorded as known finding",
+              "TLC and the harness projection are trusted"])
+
+
+CHECKS["C18"] = check_c18
+EXTRA.setdefault("C07", []).append(buf_part)
+CHECKS["C14"] = check_pure
+CHECKS["C16"] = check_pure
+EXTRA.setdefault("C15", []).append(pure_part)
+EXTRA.setdefault("C06", []).append(pure_part)
+CHECKS["C10"] = check_c10
+CHECKS["C11"] = check_c11
+
+
 def replay(rp, path):
     if rp["kind"] == "api":
         sys.path.insert(0, core.VERIF)
@@ -86,6 +318,98 @@ def replay(rp, path):
         for v in vs:
             print("clause %s fails at step %d" % (v["what"], v["l"]))
         if any(v["what"] in rp["clauses"] for v in vs):
+            print("VIOLATION property=%s replay=%s" % (rp["property"], path))
+            return 1
+        print("not reproduced on the current tree")
+        return 0
+    if rp["kind"] in ("segpairs", "hashpairs"):
+        sys.path.insert(0, core.VERIF)
+        from harness import pairs, runsim, batch
+        cfg = rp["what"]["cfg"]
+        if rp["kind"] == "segpairs":
+            if rp["what"]["segs"] == "refusals":
+                pr = {"a": pairs.canon(runsim.run(cfg)), "refusals": pairs.refusal_probe(cfg)}
+                pr["b"] = pr["a"]
+            else:
+                pr = {"a": pairs.canon(runsim.run(cfg)), "b": pairs.canon(runsim.run(cfg, segs=rp["what"]["segs"])),
+                      "refusals": []}
+        else:
+            import subprocess, tempfile, shutil
+            wd = tempfile.mkdtemp(prefix="topsim_hash_")
+            try:
+                cp = os.path.join(wd, "cfg.json")
+                json.dump(cfg, open(cp, "w"))
+                outs = []
+                for hs in (0, rp["what"]["hashseed"] if isinstance(rp["what"]["hashseed"], int) else 1):
+                    env = dict(os.environ, PYTHONHASHSEED=str(hs))
+                    op = os.path.join(wd, f"o{hs}.json")
+                    subprocess.run([sys.executable, "-m", "harness.pairs", cp, op], cwd=core.VERIF, env=env, check=True,
+                                   stdout=subprocess.PIPE, stderr=subprocess.PIPE)
+                    outs.append(json.load(open(op)))
+                pr = {"a": outs[0], "b": outs[1], "refusals": []}
+            finally:
+                shutil.rmtree(wd, ignore_errors=True)
+        pr["what"] = {}
+        sd = core.scratch()
+        import shutil as _sh
+        try:
+            p = os.path.join(sd, "pairs.json")
+            json.dump({"pairs": [pr]}, open(p, "w"))
+            res, dn = core.validate_pairs(p)
+        finally:
+            _sh.rmtree(sd, ignore_errors=True)
+        for v in res:
+            print("differs:", v["what"], "first at", v["at"])
+        if res:
+            print("VIOLATION property=%s replay=%s" % (rp["property"], path))
+            return 1
+        print("not reproduced on the current tree")
+        return 0
+    if rp["kind"] == "bufapi":
+        sys.path.insert(0, core.VERIF)
+        from harness import api_buffer as B
+        import shutil
+        tr = B.run_history((rp["cfg"], rp["ops"]))
+        sd = core.scratch()
+        try:
+            p = os.path.join(sd, "shard_00.json")
+            json.dump({"traces": [tr], "gids": [0]}, open(p, "w"))
+            r = core.validate_shard(p)
+        finally:
+            shutil.rmtree(sd, ignore_errors=True)
+        vs = [v for v in core.parse_verdicts(r["out"]) if v["kind"] == "L1"]
+        for v in vs:
+            print("clause %s fails at step %d" % (v["what"], v["l"]))
+        if any(v["what"] in rp["clauses"] for v in vs):
+            print("VIOLATION property=%s replay=%s" % (rp["property"], path))
+            return 1
+        print("not reproduced on the current tree")
+        return 0
+    if rp["kind"] == "pure":
+        sys.path.insert(0, core.VERIF)
+        from harness import pure
+        import tempfile, shutil
+        wd = tempfile.mkdtemp(prefix="topsim_p_")
+        data = {"plan": [], "config": [], "delay": [], "runtime": [], "exhaustive": False}
+        try:
+            rec = rp["record"]
+            if rp["which"] == "plan":
+                data["plan"] = [pure.run_plan(rec["x"], wd)]
+            elif rp["which"] == "config":
+                data["config"] = [pure.run_config(rec["x"], wd)]
+            else:
+                full = pure.build("quick", 0, which=(rp["which"],))
+                data[rp["which"]] = full[rp["which"]]
+            p = os.path.join(wd, "pure.json")
+            json.dump(data, open(p, "w"))
+            r = core.run_tlc("Pure", "SPECIFICATION PSpec\nCHECK_DEADLOCK FALSE\n", workers=1,
+                             env={"TRACE_FILE": p}, heap="4g", serial_gc=True)
+        finally:
+            shutil.rmtree(wd, ignore_errors=True)
+        bad = [l for l in r["out"].splitlines() if l.startswith('<<"PURE", "' + rp["property"])]
+        for l in bad[:10]:
+            print(l)
+        if bad:
             print("VIOLATION property=%s replay=%s" % (rp["property"], path))
             return 1
         print("not reproduced on the current tree")
